@@ -188,3 +188,8 @@ func verifLemmaBaseOrientationMultiplicative(f Feature) (o1 Orientation, r1 Feat
 //@   pure
 //@ func (Range).Len
 //@   pure
+
+// A feature set hands out its (non-nil) features without side effects (assumption on implementations).
+//@ func (Set).Features
+//@   pure
+//@   ensures forall k int :: 0 <= k && k < len(result) ==> result[k] != nil
